@@ -54,6 +54,12 @@ def build_sort(sc, lead=0):
         for sect in ("objectives", "nonlinear_constraints"):
             if sect in cfg and "realization_filters" in cfg[sect]:
                 cfg[sect]["realization_filters"] = [i + lead if i >= 0 else i for i in cfg[sect]["realization_filters"]]
+        if fl == "con":
+            # ... of which the first one is IN USE: a constraint filter on the other constraint that runs before the judged one
+            cfg["realization_filters"][0] = {"method": "cvar-constraint", "options": {"sort": 0, "percentile": 1.0}}
+            maps = list(cfg["nonlinear_constraints"]["realization_filters"])
+            maps[0] = 0
+            cfg["nonlinear_constraints"]["realization_filters"] = maps
     return EnOptConfig.model_validate(cfg), objs, cons, col
 
 
@@ -148,6 +154,19 @@ def drive_sort(sc):
     return trace, feats
 
 
+class _ActiveTable(TableEvaluator):
+    """Follows the documented protocol: entries flagged inactive are not computed (zeros are returned for them)."""
+
+    def __call__(self, variables, context):
+        res = super().__call__(variables, context)
+        real = context.realizations
+        if context.active_objectives is not None:
+            res.objectives[~context.active_objectives[:, real].T] = 0.0
+        if context.active_constraints is not None and res.constraints is not None:
+            res.constraints[~context.active_constraints[:, real].T] = 0.0
+        return res
+
+
 def drive_map(sc):
     n = sc["n"]
     val = np.array(sc["val"], dtype=np.float64)
@@ -167,7 +186,7 @@ def drive_map(sc):
                {"method": "sort-constraint", "options": {"sort": 1, "first": sc["first2"], "last": sc["last2"]}}]}
     config = EnOptConfig.model_validate(cfg)
     o, c = _inject(objs, cons, failed, spread=True)
-    ev = TableEvaluator(o, c)
+    ev = _ActiveTable(o, c)
     res, outcome = outcome_of(lambda: ensemble_evaluator(config, ev).calculate(
         np.zeros(2), compute_functions=True, compute_gradients=False))
     ow = [[], []]; cw = [[], []]
